@@ -1341,6 +1341,12 @@ func stepLeader(r *raft, m *pb.Message) error {
 					failedCheck = "must transition out of joint config first"
 				} else if !alreadyJoint && wantsLeaveJoint {
 					failedCheck = "not in joint state; refusing empty conf change"
+				} else if err := r.checkConfChange(cc.AsV2()); err != nil {
+					// No change is pending, so the current configuration is the one
+					// this change will be applied to: a change it does not accept
+					// (one that removes all voters, say) would make every node
+					// panic when applying it.
+					failedCheck = err.Error()
 				}
 
 				if failedCheck != "" && !r.disableConfChangeValidation {
@@ -1965,6 +1971,24 @@ func (r *raft) restore(s *pb.Snapshot) bool {
 func (r *raft) promotable() bool {
 	pr := r.trk.Progress[r.id]
 	return pr != nil && !pr.IsLearner && !r.raftLog.hasNextOrInProgressSnapshot()
+}
+
+// checkConfChange reports whether the current configuration accepts cc, without
+// changing anything.
+func (r *raft) checkConfChange(cc *pb.ConfChangeV2) error {
+	changer := confchange.Changer{
+		Tracker:   r.trk,
+		LastIndex: r.raftLog.lastIndex(),
+	}
+	var err error
+	if cc.LeaveJoint() {
+		_, _, err = changer.LeaveJoint()
+	} else if autoLeave, ok := cc.EnterJoint(); ok {
+		_, _, err = changer.EnterJoint(autoLeave, cc.GetChanges()...)
+	} else {
+		_, _, err = changer.Simple(cc.GetChanges()...)
+	}
+	return err
 }
 
 func (r *raft) applyConfChange(cc *pb.ConfChangeV2) *pb.ConfState {
